@@ -51,6 +51,8 @@ def targeted_docs(rng, n):
         rng.shuffle(props)
         for (p, e) in props[:rng.randint(4, len(props))]:
             lines.append("        %s: %s" % (p, e % rng.randint(0, 9) if "%d" in e else e))
+        # (the third system header, <cmath>, is always needed)
+        lines.append("        dval2: (sp.value as double) %% %d.5" % rng.randint(1, 9))
         cbs = [("onIvalChanged", "console.log(\"i\")"), ("onFired", "console.warn(vf.ival)"), ("onTold", "function(s: QString) { console.info(s) }"),
                ("onPoked", "function(a: int) { vf.ival2 = Math.max(a, 1) }"), ("onDvalChanged", "console.error(vf.dval)"),
                ("onTriple", "function(a: int, b: QString) { vf.sval2 = b }"), ("onModeChanged", "vf.doIt()")]
